@@ -10,7 +10,7 @@ from .core import (Val, Unsupported, TPoison, T_EMPTY, T_LAMBDA, T_CLASS, T_BUIL
 
 SPEC_FORMS = {"old", "pre", "forall", "exists", "implies", "iff", "forall_obj", "forall_int", "exists_int",
               "let", "ite", "seq_eq", "is_none", "unchanged", "typeis", "elems", "idx_of", "count_int",
-              "forall_str", "fresh_obj", "unchanged_except", "to_int", "to_real", "forall_int_t", "sum_of", "sum_upto", "is_perm", "sorted_by", "stable_wrt", "ghost_int", "same", "at_head", "flat_elems", "fold_int"}
+              "forall_str", "fresh_obj", "unchanged_except", "to_int", "to_real", "forall_int_t", "sum_of", "sum_upto", "is_perm", "sorted_by", "stable_wrt", "ghost_int", "same", "at_head", "flat_elems", "fold_int", "ghost_rel"}
 
 
 def _forall_pat(vs, body, patterns):
@@ -207,6 +207,11 @@ class CallMixin:
         if fn is None:
             raise Unsupported("method %s.%s" % (cls, attr), node)
         self.oblige("safe", "none-call.%s" % attr, base.z != self.S.null, st, node)
+        # an instance attribute of a subclass with the same name shadows the method: `obj.m(...)` would call the attribute
+        for sub in self.src.subclasses(cls):
+            if sub != cls and sub in self.schema and attr in self.schema[sub]:
+                self.oblige("safe", "method-%s-shadowed-by-attribute-of-%s" % (attr, sub),
+                            z3.And(*[self.cls_of(base.z) != self.class_ids[x] for x in self.src.subclasses(sub)]), st, node)
         return self.call_function("%s.%s" % (defcls, attr), base, args, kwargs, st, node)
 
     def bind_params(self, qual, fn, selfv, args, kwargs, st, node=None):
@@ -740,6 +745,12 @@ class CallMixin:
             if t.kind in ("Poison", "EmptyList"):
                 return Val(TBool, self.val_eq(x, y, node))
             return Val(TBool, self.coerce(x, t, node).z == self.coerce(y, t, node).z)
+        if name == "ghost_rel":
+            # ghost_rel('name', a, b): an uninterpreted binary relation on objects (e.g. `is a descendant of`), constrained
+            # only by what the preconditions say about it
+            x, y = self.ev(a[1], st), self.ev(a[2], st)
+            f = self.uf("ghostrel_" + a[0].value, x.z.sort(), y.z.sort(), z3.BoolSort())
+            return Val(TBool, f(x.z, y.z))
         if name == "ghost_int":
             # ghost_int('name', obj): an uninterpreted integer-valued function of an object (e.g. a rank that
             # witnesses acyclicity); as a precondition it means "for every such function"
@@ -1215,7 +1226,12 @@ class CallMixin:
             acc = z3.RealVal(0) if rt == TReal else z3.IntVal(0)
             for i in range(self.bound):
                 ii = z3.IntVal(i)
-                acc = z3.If(ii < n, acc + self.coerce(g(ii), rt, node).z, acc)
+                self.extra_path.append(ii < n)        # obligations inside the summand hold only for indices in range
+                try:
+                    term = self.coerce(g(ii), rt, node).z
+                finally:
+                    self.extra_path.pop()
+                acc = z3.If(ii < n, acc + term, acc)
             return Val(rt, acc)
         ps, bvs = self.prefix_sum_fn(n, g, rt, st, node)
         return Val(rt, ps(*bvs, n))
